@@ -409,19 +409,26 @@ Definition same_parse (st st' : pst) : Prop :=
 Lemma p_next_pop c st t o q' : b_queue st = QOk t o :: q' -> p_next c st = (pset_last (pset_queue st q') o, NItem t o).
 Proof. intros H. unfold p_next. rewrite H. cbn iota. rewrite H. reflexivity. Qed.
 
+(* prefixing the outputs of a run *)
+Definition rcat (outs : list rout) (r : pst * list rout) : pst * list rout := (fst r, outs ++ snd r).
+Lemma rcat_rcat a b r : rcat a (rcat b r) = rcat (a ++ b) r.
+Proof. unfold rcat. cbn [fst snd]. rewrite app_assoc. reflexivity. Qed.
+Lemma rcat_nil r : rcat [] r = r.
+Proof. destruct r; reflexivity. Qed.
+
 Lemma drain c : forall q st, b_queue st = q_ok q -> b_bad st = None ->
   exists st0, same_parse st st0 /\ b_queue st0 = [] /\
-              forall n, snd (p_run_all (length q + n) c st) = o_ok q ++ snd (p_run_all n c st0).
+              forall n, p_run_all (length q + n) c st = rcat (o_ok q) (p_run_all n c st0).
 Proof.
   induction q as [|[t o] q IH]; intros st Hq Hb.
-  - exists st. split; [repeat split|]. split; [exact Hq|]. intros n. reflexivity.
+  - exists st. split; [repeat split|]. split; [exact Hq|]. intros n. cbn [q_ok o_ok map length Nat.add]. symmetry. apply rcat_nil.
   - cbn [q_ok map fst snd] in Hq.
     set (st1 := pset_last (pset_queue st (q_ok q)) o).
     destruct (IH st1 eq_refl Hb) as [st0 [Hsame [Hq0 Hrun]]].
     exists st0. split; [exact Hsame|]. split; [exact Hq0|]. intros n.
     cbn [length Nat.add p_run_all]. rewrite (p_next_pop c st t o (q_ok q) Hq). fold st1.
     assert (Hb1 : b_bad st1 = None) by exact Hb. rewrite Hb1.
-    specialize (Hrun n). destruct (p_run_all (length q + n) c st1) as [st2 outs]. cbn [snd] in *. rewrite Hrun. reflexivity.
+    specialize (Hrun n). rewrite Hrun. unfold rcat. cbn [fst snd o_ok map]. reflexivity.
 Qed.
 
 Lemma run_refill c st n : b_queue st = [] -> b_queue (p_read_next (b_fuel st) c st) <> [] ->
@@ -619,7 +626,7 @@ Lemma step_run c st T stk ids x total p st_b consumed :
   advanced (ppop_frames st (exhausted_count (b_off st) (b_stack st))) st_b consumed -> consumed <> [] ->
   tag_id (p_tag p) = x -> p_start p = b_off st ->
   exists st', at_ st' (b_bytes st_b) (b_off st_b) (new_frame p ++ stk) (b_fuel st) /\ b_det st' = true /\
-    forall n, snd (p_run_all (length T + 1 + n) c st) = map end_out T ++ OItem (p_tag p) (b_off st) :: snd (p_run_all n c st').
+    forall n, p_run_all (length T + 1 + n) c st = rcat (map end_out T ++ [OItem (p_tag p) (b_off st)]) (p_run_all n c st').
 Proof.
   intros H Hread Hadv Hne Hx Hstart.
   pose proof (finish_step c st T stk ids x total p st_b consumed H Hread Hadv Hne Hx Hstart) as Hfin. cbn zeta in Hfin.
@@ -636,8 +643,7 @@ Proof.
     rewrite (run_refill c st (length T + n)).
     + fold st1. specialize (Hrun n).
       assert (Hl2 : (length q + n = S (length T + n))%nat) by (unfold q; rewrite app_length, map_length; cbn; lia).
-      rewrite Hl2 in Hrun. rewrite Hrun. unfold q, o_ok. rewrite map_app, map_map. cbn [map fst snd app].
-      rewrite <- app_assoc. reflexivity.
+      rewrite Hl2 in Hrun. rewrite Hrun. unfold q, o_ok. rewrite map_app, map_map. cbn [map fst snd app]. reflexivity.
     + apply (sp_queue _ _ _ _ _ _ _ H).
     + fold st1. rewrite F4. destruct (map end_item T); discriminate.
     + exact F6.
@@ -799,8 +805,8 @@ Definition Ptree (c : cfg) (t : rtree) : Prop :=
   forall ids, conf c ids t -> forall st T stk rest,
   pre c st T stk ids (tlen t) -> b_bytes st = enc_tree t ++ rest -> wf_bytes rest ->
   exists st', at_ st' rest (b_off st + tlen t) (spine_tree (b_off st) t ++ stk) (b_fuel st) /\ b_det st' = true /\
-    forall n, snd (p_run_all (length (map end_out T ++ items_open_tree (b_off st) t) + n) c st) =
-              (map end_out T ++ items_open_tree (b_off st) t) ++ snd (p_run_all n c st').
+    forall n, p_run_all (length (map end_out T ++ items_open_tree (b_off st) t) + n) c st =
+              rcat (map end_out T ++ items_open_tree (b_off st) t) (p_run_all n c st').
 
 Lemma conf_path c ids t : conf c ids t -> forall id sz cs, t = RNode id sz cs -> get_path (c_sp c) id = map PId ids.
 Proof. intros H id sz cs ->. apply conf_node in H. tauto. Qed.
@@ -809,11 +815,10 @@ Lemma parse_forest c : forall l, Forall (Ptree c) l -> forall ids, Forall (conf 
   pre c st T stk ids (flen l) -> b_bytes st = enc_forest l ++ rest -> wf_bytes rest ->
   exists st', at_ st' rest (b_off st + flen l) (pend_after (b_off st) l T ++ stk) (b_fuel st) /\
     (b_det st = true -> b_det st' = true) /\ (l <> [] -> b_det st' = true) /\
-    forall n, snd (p_run_all (length (outs_forest (b_off st) l T) + n) c st) =
-              outs_forest (b_off st) l T ++ snd (p_run_all n c st').
+    forall n, p_run_all (length (outs_forest (b_off st) l T) + n) c st = rcat (outs_forest (b_off st) l T) (p_run_all n c st').
 Proof.
   induction l as [|x l IH]; intros HP ids Hconf st T stk rest Hpre Hb Hwf.
-  - exists st. split; [|split; [auto|split; [intros H; contradiction|intros n; reflexivity]]].
+  - exists st. split; [|split; [auto|split; [intros H; contradiction|intros n; symmetry; apply rcat_nil]]].
     destruct Hpre. unfold at_. rewrite flen_nil, N.add_0_r. cbn [enc_forest app] in Hb. cbn [pend_after]. repeat split; assumption.
   - inversion HP as [|? ? HPx HPl]; subst. inversion Hconf as [|? ? Hcx Hcl]; subst.
     cbn [enc_forest] in Hb. rewrite <- app_assoc in Hb.
@@ -844,7 +849,7 @@ Proof.
                    (map end_out T ++ items_open_tree (b_off st) x) ++ outs_forest (b_off st + tlen x) l (spine_tree (b_off st) x)).
       { destruct l as [|y l']; [cbn [outs_forest items_open_forest]; rewrite app_nil_r; reflexivity|].
         unfold outs_forest. rewrite items_open_forest_cons by discriminate. rewrite <- !app_assoc. reflexivity. }
-      rewrite Ho, app_length, <- Nat.add_assoc, Hrun1, Hrun2. rewrite <- !app_assoc. reflexivity.
+      rewrite Ho, app_length, <- Nat.add_assoc, Hrun1, Hrun2. apply rcat_rcat.
 Qed.
 
 Lemma pend_after_nil off l : pend_after off l [] = spine_forest off l.
@@ -878,7 +883,7 @@ Proof.
     + destruct Hadv as [_ [Ho _]]. rewrite Hrest, Ho, P2 in Hat. unfold new_frame in Hat. cbn [p_tag app] in Hat. cbn [spine_tree app].
       unfold tlen. exact Hat.
     + intros n. cbn [items_open_tree]. rewrite app_length, map_length. cbn [length]. cbn [p_tag] in Hrun.
-      rewrite Hrun, <- app_assoc. reflexivity.
+      rewrite Hrun. reflexivity.
   - (* a master: its header, then its children *)
     apply conf_node in Hconf. destruct Hconf as [Hid [Hsz [Hty [Hpath [Hmax Hcs]]]]].
     set (t := RNode id sz cs) in *.
@@ -927,7 +932,7 @@ Proof.
       rewrite app_length, map_length. cbn [length]. cbn [p_tag] in Hrun1.
       replace (length T + S (length (items_open_forest (b_off st + N.of_nat (hdr_len t)) cs)) + n)%nat
         with (length T + 1 + (length (items_open_forest (b_off st + N.of_nat (hdr_len t)) cs) + n))%nat by lia.
-      rewrite Hrun1, Hrun2. rewrite <- !app_assoc. reflexivity.
+      rewrite Hrun1, Hrun2, rcat_rcat. f_equal. rewrite <- app_assoc. reflexivity.
 Qed.
 
 (* ------------------------------------------------------------------ the end of the input *)
@@ -965,7 +970,7 @@ Proof.
     assert (Hq1 : b_queue st1 = q_ok (map end_pair S1)) by (rewrite E4; unfold q_ok; rewrite map_map; reflexivity).
     destruct (drain c (map end_pair S1) st1 Hq1 E5) as [st0 [[S1' [S2 [S3 [S4 [S5 S6]]]]] [Hq0 Hrun]]].
     specialize (Hrun (S n)). rewrite map_length in Hrun.
-    replace (S (length S1 + n)) with (length S1 + S n)%nat by lia. rewrite Hrun.
+    replace (S (length S1 + n)) with (length S1 + S n)%nat by lia. rewrite Hrun. unfold rcat. cbn [snd].
     unfold o_ok. rewrite map_map. cbn [fst snd end_pair]. f_equal.
     apply eof_none; [rewrite S1'; exact E1|rewrite S3; exact E3|exact Hq0|rewrite S5; exact E5|rewrite S6, E6; exact Hf|exact He].
 Qed.
@@ -1042,7 +1047,7 @@ Proof.
   pose proof (items_le_bytes_forest c [] f 0 Hconf) as Hle. rewrite <- (open_close_forest f 0), app_length, map_length in Hle.
   set (k := length (items_open_forest 0 f)) in *. set (s := length (spine_forest 0 f)) in *.
   replace (4 * length input + 64)%nat with (k + (s + S (4 * length input + 63 - k - s)))%nat by (unfold input; lia).
-  rewrite Hrun. pose proof (eof_ends c st1 (4 * length input + 63 - k - s) A1 A4 A5 Hf1 He) as Hend. rewrite A3 in Hend. fold s in Hend.
+  rewrite Hrun. unfold rcat. cbn [snd]. pose proof (eof_ends c st1 (4 * length input + 63 - k - s) A1 A4 A5 Hf1 He) as Hend. rewrite A3 in Hend. fold s in Hend.
   rewrite Hend, app_assoc, open_close_forest. reflexivity.
 Qed.
 
